@@ -121,6 +121,8 @@ func runC18(c *core.Ctx) {
 	}
 
 	// ------------------------------------------------------------ lines
+	c.Doc("C18.recursion", "a type reference hands a question on to the type it designates only while marked as being visited, and refuses to resolve while marked (a recursive struct is an error, not a stack overflow)", 4)
+	ruleReferenceRecursionGuard(c, "C18.recursion")
 	c.Doc("C18.stateless", "the IDL parser keeps nothing between two parses: its entry points use no package-level variable that changes after initialisation", 1)
 	ruleParserKeepsNoState(c, "C18.stateless", "meta/idl", "ParsePackage", "ParseIDL")
 	c.Doc("C18.loop-variables", "no address of a loop variable shared by all iterations is kept beyond its iteration (the interfaces, methods and members of a package are printed and rebuilt in loops)", 1)
